@@ -201,3 +201,43 @@ Definition equiv_brute (c c' : circuit) : bool :=
    forallb (λ o, negb (consistentb c (val_set o)) || existsb (λ w, consistentb c' (val_set (o ++ w))) new)
            (subsets (elements (dom c)))).
 Definition equiv_oracle (c c' : circuit) : bool := if acyclicb c then equiv_check c c' else equiv_brute c c'.
+
+(* ---- the same three functions written with the validated API model of Base/Api.v (disconnect_g, add_g with uid=True,
+        connect_g inside add_g, add_blackbox).  `agree` of Run_C05 replays the implementation through THESE; Proofs/LimitApi.v
+        shows that whenever they return a circuit the direct models above return the same one. ---- *)
+Definition fl_uid : add_flags := {| af_out := false; af_conn := false; af_redef := false; af_uid := true |}.
+Definition of_add (r : circuit * outcome * string) : res circuit :=
+  match r.1.2 with Done => Ok r.1.1 | Fail e => Raise e end.
+
+Definition fanin_step_api (T : limit_tables) (c : circuit) (k : nat) (n f0 f1 : string) (i : nat) : res circuit :=
+  match c !! n with None => BadOrder | Some inf =>
+  if negb (k <? size (n_fi inf))%nat then BadOrder else
+  if bool_decide (f0 = f1) || negb (bool_decide (f0 ∈ n_fi inf)) || negb (bool_decide (f1 ∈ n_fi inf)) then BadOrder else
+  match assoc (t_gatemap T) (n_ty inf) with None => Raise KeyError | Some t' =>
+  (* ck.disconnect([f0, f1], n); ck.add(f"{n}_limit_fanin_{i}", gatemap[..], fanin=[f0, f1], fanout=n, uid=True) *)
+  of_add (add_g (disconnect_g c [f0; f1] [n]) (n ++ t_in_suffix T ++ pretty i) t' [f0; f1] [n] fl_uid)
+  end end.
+Definition fanout_step_api (T : limit_tables) (c : circuit) (k : nat) (n f0 f1 : string) (i : nat) : res circuit :=
+  match c !! n with None => BadOrder | Some inf =>
+  let fo := fanout c n in
+  if negb (k <? size fo)%nat then BadOrder else
+  if bool_decide (f0 = f1) || negb (bool_decide (f0 ∈ fo)) || negb (bool_decide (f1 ∈ fo)) then BadOrder else
+  (* ck.disconnect(n, [f0, f1]); ck.add(f"{n}_limit_fanout_{i}", "buf", fanin=n, fanout=[f0, f1], uid=True) *)
+  of_add (add_g (disconnect_g c [n] [f0; f1]) (n ++ t_out_suffix T ++ pretty i) (t_helper T) [n] [f0; f1] fl_uid)
+  end.
+Fixpoint steps_api (stepf : circuit → nat → string → string → string → nat → res circuit) (finalb : circuit → nat → bool)
+    (c : circuit) (k : nat) (st : lstate) (steps : list step3) : res circuit :=
+  match steps with
+  | [] => if finalb c k then Ok c else BadOrder
+  | (n, f0, f1) :: rest =>
+      match next_index st n with None => BadOrder | Some (i, st') =>
+        rbind (stepf c k n f0 f1 i) (λ c', steps_api stepf finalb c' k st' rest) end
+  end.
+Definition fanin_final (c : circuit) (k : nat) : bool := forallb (λ p, size (n_fi p.2) <=? k)%nat (map_to_list c).
+Definition fanout_final (c : circuit) (k : nat) : bool := forallb (λ n, size (fanout c n) <=? k)%nat (elements (dom c)).
+Definition limit_fanin_run_api (C : Circuit) (k : nat) (steps : list step3) : res Circuit :=
+  if (k <? fanin_min_k)%nat then Raise ValueError
+  else rmap (with_g C) (steps_api (fanin_step_api gen_limit_tables) fanin_final (c_g C) k ls_init steps).
+Definition limit_fanout_run_api (C : Circuit) (k : nat) (steps : list step3) : res Circuit :=
+  if (k <? fanout_min_k)%nat then Raise ValueError
+  else rmap (with_g C) (steps_api (fanout_step_api gen_limit_tables) fanout_final (c_g C) k ls_init steps).
